@@ -111,6 +111,12 @@ def rule_r2(facts, rep, rid="C04-R2"):
     c = ctx(f)
     arms = arms_by_variant(facts, m, GRAPHNODE)
     n = 0
+    # a walk step shared by all kinds: recursive calls outside the per-kind match (`if let Some(c) = node.child_id() { self.index_node(c) }` after it)
+    in_match = set(id(y) for y in fb.walk(m))
+    tail_prov = set()
+    for rc in [x for x in fb.calls_in(f.body) if fb.callee(x) == f.def_ and id(x) not in in_match]:
+        arg = rc["args"][-1] if rc["args"] else None
+        tail_prov |= c.vprov(arg)
     for v in [x["path"] for x in facts.adts[GRAPHNODE]["variants"]]:
         vs = fb.last_seg(v)
         st = payload_struct(facts, v)
@@ -128,6 +134,7 @@ def rule_r2(facts, rep, rid="C04-R2"):
         for rc in rec_calls:
             arg = rc["args"][-1] if rc["args"] else None
             rec_prov |= c.vprov(arg)
+        rec_prov |= tail_prov
         ment = set(c.mentions(body))
         # bounded inlining: helper methods of RefIndex called from the arm (extract-method refactorings)
         for _lvl in range(2):
